@@ -349,7 +349,7 @@ func renameInPlace(repo, spec string) {
 		os.Exit(2)
 	}
 	fset := token.NewFileSet()
-	cfg := &packages.Config{Mode: packages.LoadSyntax | packages.NeedModule, Dir: repo, Fset: fset, Env: cleanEnv()}
+	cfg := &packages.Config{Mode: packages.LoadSyntax | packages.NeedModule, Dir: repo, Fset: fset, Env: cleanEnv(), BuildFlags: []string{"-trimpath"}}
 	pkgs, err := packages.Load(cfg, "./...")
 	if err != nil {
 		fmt.Fprintln(os.Stderr, err)
